@@ -1,6 +1,7 @@
 package main
 
 import (
+	"sort"
 	"fmt"
 	"go/token"
 	"go/types"
@@ -807,7 +808,7 @@ func (vf *VerifyFunc) chanOp(st *State, fr *Frame, ch *Val, op string, in ssa.In
 		st.check("nilchan", fmt.Sprintf("%s#%d", op, vf.eng.info(fr.fn).chanOrd[in]), "", op+" on nil channel blocks forever", st.pos(in), not(eq(ch.Tm, "0")))
 	}
 	if vf.fc != nil && vf.fc.Flags["nonblocking"] && len(st.frames) == 1 {
-		st.check("nonblock", fmt.Sprintf("%s#%d", op, vf.eng.info(fr.fn).chanOrd[in]), "C12", "blocking channel "+op+" in a function declared nonblocking", st.pos(in), "false")
+		st.check("nonblock", fmt.Sprintf("%s#%d", op, vf.eng.info(fr.fn).chanOrd[in]), vf.propsOf("C12"), "blocking channel "+op+" in a function declared nonblocking", st.pos(in), "false")
 	}
 }
 
@@ -912,7 +913,7 @@ func (vf *VerifyFunc) selectOp(st *State, fr *Frame, x *ssa.Select) *Val {
 		}
 	}
 	if x.Blocking && vf.fc != nil && vf.fc.Flags["nonblocking"] && len(st.frames) == 1 {
-		st.check("nonblock", fmt.Sprintf("select#%d", vf.eng.info(fr.fn).chanOrd[x]), "C12", "blocking select in a function declared nonblocking", st.pos(x), "false")
+		st.check("nonblock", fmt.Sprintf("select#%d", vf.eng.info(fr.fn).chanOrd[x]), vf.propsOf("C12"), "blocking select in a function declared nonblocking", st.pos(x), "false")
 	}
 	fs := []*Val{{T: tt.At(0).Type(), S: SInt, Tm: idx}, st.freshVal(tt.At(1).Type(), "sel_ok")}
 	for i := 2; i < tt.Len(); i++ {
@@ -967,4 +968,18 @@ func addT(a, b string) string {
 func typeName(t types.Type) string {
 	s := types.TypeString(t, func(p *types.Package) string { return p.Name() })
 	return strings.TrimPrefix(s, "*")
+}
+
+// propsOf: the properties the function under contract is declared to serve (comma separated), def when it declares none:
+// obligations that come from a flag of the contract (nonblocking, ...) count under those properties.
+func (vf *VerifyFunc) propsOf(def string) string {
+	if vf.fc == nil || len(vf.fc.Props) == 0 || vf.fc.Props[def] {
+		return def // the property the flag was introduced for, when the function serves it
+	}
+	var ps []string
+	for p := range vf.fc.Props {
+		ps = append(ps, p)
+	}
+	sort.Strings(ps)
+	return strings.Join(ps, ",")
 }
